@@ -3,6 +3,7 @@ import Autd3.Gen.DriverConsts
 import Autd3.Lemmas.P02Read
 import Autd3.Lemmas.P02ClearObs
 import Autd3.Lemmas.P02Wire
+import Autd3.Lemmas.StateByte6
 /-!
 # C17 — what the controller reads back is what the device is doing
 `decodeState` mirrors `FPGAState::{from_rx, is_thermal_assert, current_mod_segment,
@@ -200,6 +201,230 @@ theorem readback_preserves_wf (s : State) (d : Array Nat) (h : WF s) :
     WF (readFpgaState s) ∧ ∃ s' a, firmInfo s d = .ok (s', a) ∧ WF s' :=
   ⟨wf_readFpgaState s h, wf_firmInfo s d h⟩
 
+/-! ## third layer: histories
+
+`SB.RunE p0 t0 h s t` (`Lemmas/StateByte3.lean`): the history `h` — complete sends of `Hist.Legal` datagrams (every kind
+of the vocabulary: Clear, Synchronize, ForceFan, ReadsFPGAState on/off, GPIO, PhaseCorrection, PulseWidthEncoder,
+both Silencer forms, Gain, Modulation, FociSTM, GainSTM with every accepted transition mode and finite or infinite
+loops, the four SwapSegment datagrams) through the real packer model, interleaved with clock updates
+(`update_with_sys_time(t)`, at ANY times) and thermal-sensor toggles — runs from the power-on device.  A clock update
+is a member of a history only if it returns: the recorded update panics (F15, F17, F18) are excluded by that
+hypothesis and by nothing else. -/
+open Autd3.SB Autd3.Hist
+
+theorem decodeState_none_iff (rx : Nat) : decodeState rx = none ↔ rx &&& 0x80 = 0 := by
+  unfold decodeState
+  have : Drv.READS_FPGA_STATE_ENABLED = 0x80 := by decide
+  rw [this]
+  by_cases h : rx &&& 0x80 = 0 <;> simp [h]
+
+/-- **the state byte tracks what the device plays, after any history** (`state_byte_tracks_playing`).
+From the power-on device (`CPUEmulator::new`, any transducer count ≤ 249, any clock), after ANY history `h` of complete
+legal sends, clock updates and sensor toggles, followed by one clock update at any time `tc` that returns:
+
+* both swap chains are on a real segment;
+* `Controller::fpga_state()` sees `None` (bit 7 of the rx byte clear) exactly when the history left state reading
+  disabled (`readsOf false h`: the last ReadsFPGAState after the last Clear; disabled at power-on);
+* otherwise the byte decodes (through the `FPGAState` accessors) to: thermal flag = the sensor as last toggled
+  (`thermoOf false h`), modulation segment = the segment the modulation swap chain is CURRENTLY on
+  (`Obs.currentModSeg`, not the requested one), and the segment the STM swap chain is currently on, reported as a
+  *gain* segment iff the cycle REGISTER of that segment says one pattern (`Obs.stmCycle s' cur = 1`, exactly the test
+  of `FPGAEmulator::update_with_sys_time`) and as an *STM* segment otherwise;
+* the reads flag and the sensor of the device are the ones the history asks for.
+
+"Holds a single pattern" is the cycle register of the current segment — NOT the cycle the swap chain latched when the
+segment was switched to: see `single_pattern_is_register_not_latched_cycle`. -/
+theorem state_byte_tracks_playing (numTr now : Nat) (hn : numTr ≤ 249) (p0 : State) (hp0 : Fw.new numTr now = .ok p0)
+    (t0 : Wire.Tx) (ht0 : Rt.TxOK t0) (h : List HEv) (s : State) (t : Wire.Tx) (hr : RunE p0 t0 h s t)
+    (tc : Nat) (s' : State) (hu : updateWithSysTime s tc = .ok s') :
+    (Obs.currentModSeg s' ≤ 1 ∧ Obs.currentStmSeg s' ≤ 1) ∧
+    (decodeState s'.rxData = none ↔ readsOf false h = false) ∧
+    (s'.rxData &&& 0x80 = 0 ↔ readsOf false h = false) ∧
+    (readsOf false h = true →
+      decodeState s'.rxData =
+        some (thermoOf false h, Obs.currentModSeg s',
+              (if Obs.stmCycle s' (Obs.currentStmSeg s') = 1 then some (Obs.currentStmSeg s') else none),
+              (if Obs.stmCycle s' (Obs.currentStmSeg s') = 1 then none else some (Obs.currentStmSeg s')))) ∧
+    s'.readsFpgaState = readsOf false h ∧ Obs.isThermo s' = thermoOf false h ∧ s'.isRxDataUsed = false := by
+  have i := runE_inv hr false false (inv_new numTr now hn p0 hp0 t0 ht0)
+  have i' := inv_tick i hu
+  have hm : s'.modSwap.cur ≤ 1 := i'.segM.1
+  have hs : s'.stmSwap.cur ≤ 1 := i'.segS.1
+  have hsz : 1 < s.ctl.size := by rw [i.wf.ctl]; decide
+  obtain ⟨a1, a2, a3, a4⟩ := fpga_state_after_update s s' tc hsz i.used hu hm hs
+  obtain ⟨mw, sw, st, rx, _, _, _, e⟩ := update_form s s' tc hu
+  have hreg : reg s' (Cpu.ADDR_STM_CYCLE0 + s'.stmSwap.cur) = reg s (Cpu.ADDR_STM_CYCLE0 + s'.stmSwap.cur) := by
+    have : Cpu.ADDR_STM_CYCLE0 + s'.stmSwap.cur ≠ Cpu.ADDR_FPGA_STATE := by
+      simp only [Cpu.ADDR_STM_CYCLE0, Cpu.ADDR_FPGA_STATE]; omega
+    have := reg_tickState_ne s mw sw st rx tc _ this
+    rw [← e] at this
+    exact this
+  have hcyc : (Obs.stmCycle s' (Obs.currentStmSeg s') = 1) ↔ reg s (Cpu.ADDR_STM_CYCLE0 + s'.stmSwap.cur) = 0 := by
+    unfold Obs.stmCycle Obs.currentStmSeg
+    rw [hreg]; omega
+  have hth : decide (reg s Cpu.ADDR_FPGA_STATE % 2 = 1) = thermoOf false h := i.thermo
+  refine ⟨⟨hm, hs⟩, by rw [a1, i.reads], by rw [← decodeState_none_iff, a1, i.reads], ?_, i'.reads, i'.thermo, a4⟩
+  intro hrd
+  rw [a2 (by rw [i.reads]; exact hrd), hth]
+  unfold Obs.currentModSeg
+  by_cases hc : reg s (Cpu.ADDR_STM_CYCLE0 + s'.stmSwap.cur) = 0
+  · rw [if_pos hc, if_pos hc, if_pos (hcyc.2 hc), if_pos (hcyc.2 hc)]; rfl
+  · rw [if_neg hc, if_neg hc, if_neg (fun x => hc (hcyc.1 x)), if_neg (fun x => hc (hcyc.1 x))]; rfl
+
+/-- **"holds a single pattern" is the cycle REGISTER, not the cycle the swap chain plays**
+(`single_pattern_is_register_not_latched_cycle`, a counterexample to reading "gain iff the playing segment holds a single
+pattern" as "iff the device plays a single pattern").  `FPGAEmulator::update_with_sys_time` tests
+`stm_cycle(current_stm_segment()) == 1` on the controller register, which a write to the playing segment WITHOUT
+transition changes at once; the swap chain keeps the cycle it latched at the last `Swapchain::set`.  Both directions,
+from power-on, frames as the SDK packs them (`Lemmas/StateByte4.lean`), run by the kernel:
+
+* `latchedA`: the device plays the single pattern of S0 (latched cycle 1, index 0 — the index can never leave 0); a
+  GainSTM of 2 patterns is written to S0 without transition.  Register: 2 patterns.  The byte is `0x80`:
+  `current_gain_segment() = None`, `current_stm_segment() = Some(S0)`.
+* `latchedB`: the device plays a 2-pattern GainSTM in S0 (latched cycle 2); a Gain is written to S0 without
+  transition.  Register: 1 pattern.  The byte is `0x88`: `current_gain_segment() = Some(S0)`, while the swap chain is at
+  pattern index 1 of 2.
+
+The byte therefore reports what the segment HOLDS (the property's wording), not what the swap chain plays. -/
+theorem single_pattern_is_register_not_latched_cycle :
+    afterTrace latchedA (fun s =>
+      decodeState s.rxData = some (false, 0, none, some 0) ∧ Obs.stmCycle s (Obs.currentStmSeg s) = 2 ∧
+      sel s.stmSwap.cycle s.stmSwap.cur = 1 ∧ Obs.currentStmIdx s = 0) := by
+  decide +kernel
+
+/-- the other direction (`latchedB` above): the byte says *gain* S0 while the swap chain is at index 1 of a latched
+2-pattern cycle -/
+theorem gain_flag_is_register_not_latched_cycle :
+    afterTrace latchedB (fun s =>
+      decodeState s.rxData = some (false, 0, some 0, none) ∧ Obs.stmCycle s (Obs.currentStmSeg s) = 1 ∧
+      sel s.stmSwap.cycle s.stmSwap.cur = 2 ∧ Obs.currentStmIdx s = 1) := by
+  decide +kernel
+
+/-- **requested ≠ current: the byte follows CURRENT** (`requested_vs_current`).  After any history `h`, a legal
+Modulation with a finite loop (`rep ≠ 0xFFFF`) and a SysTime transition at `v` is sent to the segment that is NOT
+playing.  The request is accepted and parked: at every clock update before `v` the requested segment
+(`req_modulation_segment()`) is `seg`, the swap chain stays on the other segment, and the state byte (if reading is
+enabled) reports the segment the swap chain is on — not the requested one. -/
+theorem requested_vs_current (numTr now : Nat) (hn : numTr ≤ 249) (p0 : State) (hp0 : Fw.new numTr now = .ok p0)
+    (t0 : Wire.Tx) (ht0 : Rt.TxOK t0) (h : List HEv) (s : State) (t : Wire.Tx) (hr : RunE p0 t0 h s t)
+    (seg v rep div : Nat) (samples : Array Nat)
+    (hL : Legal s (.modulation seg (some (Cpu.TRANSITION_MODE_SYS_TIME, v)) rep div samples))
+    (hseg : Obs.currentModSeg s ≠ seg) (hrep : rep ≠ 0xFFFF) (t1 : Wire.Tx) (s1 : State)
+    (hS : Rt.Sends (.modulation seg (some (Cpu.TRANSITION_MODE_SYS_TIME, v)) rep div samples) s t t1 s1)
+    (tc : Nat) (htc : tc < v) (s2 : State) (hu : updateWithSysTime s1 tc = .ok s2) :
+    Obs.reqModSeg s2 = .ok seg ∧ Obs.currentModSeg s2 = Obs.currentModSeg s ∧ Obs.currentModSeg s2 ≠ seg ∧
+    (readsOf false h = true →
+      ∃ g st, decodeState s2.rxData = some (thermoOf false h, Obs.currentModSeg s, g, st)) := by
+  have i := runE_inv hr false false (inv_new numTr now hn p0 hp0 t0 ht0)
+  obtain ⟨_, f⟩ := mod_sends s t i.wf i.tx i.fresh seg _ rep div samples hL.1 hL.2.1 hL.2.2
+  obtain ⟨_, _, _, held, _, _⟩ := f _ _ hS
+  have hq := held.req
+  simp only [] at hq
+  obtain ⟨q1, _, q3⟩ := hq
+  have hmode : Rt.tmodeOf Cpu.TRANSITION_MODE_SYS_TIME v = .sysTime v := rfl
+  rw [hmode] at q3
+  obtain ⟨c1, c2, c3, _⟩ := q3.later hseg hrep
+  obtain ⟨u1, _⟩ := update_swaps s1 s2 tc hu
+  obtain ⟨w1, _, _⟩ := update_waiting _ _ _ tc v c3 q3.mode htc u1
+  have hcur : Obs.currentModSeg s2 = Obs.currentModSeg s := by
+    unfold Obs.currentModSeg; rw [w1, c1]
+  obtain ⟨mw, sw, st, rx, _, _, _, e⟩ := update_form s1 s2 tc hu
+  have hreq : Obs.reqModSeg s2 = Obs.reqModSeg s1 := by
+    unfold Obs.reqModSeg segReg
+    have := reg_tickState_ne s1 mw sw st rx tc Cpu.ADDR_MOD_REQ_RD_SEGMENT (by decide)
+    rw [← e] at this
+    rw [this]
+  have hrun : RunE p0 t0 (h ++ [.send (.modulation seg (some (Cpu.TRANSITION_MODE_SYS_TIME, v)) rep div samples)]) s1 t1 :=
+    hr.append (RunE.send hL hS (RunE.nil _ _))
+  obtain ⟨_, _, _, dec, _⟩ := state_byte_tracks_playing numTr now hn p0 hp0 t0 ht0 _ s1 t1 hrun tc s2 hu
+  refine ⟨hreq.trans q1, hcur, by rw [hcur]; exact hseg, ?_⟩
+  intro hrd
+  have e1 : readsOf false (h ++ [.send (.modulation seg (some (Cpu.TRANSITION_MODE_SYS_TIME, v)) rep div samples)]) =
+      readsOf false h := by rw [readsOf_append]; rfl
+  have e2 : thermoOf false (h ++ [.send (.modulation seg (some (Cpu.TRANSITION_MODE_SYS_TIME, v)) rep div samples)]) =
+      thermoOf false h := by rw [thermoOf_append]; rfl
+  rw [e1, e2, hcur] at dec
+  exact ⟨_, _, dec hrd⟩
+
+/-- the same situation run by the kernel on the frames the SDK packs (`pendingC`: power-on, Modulation of 4 samples to
+S1 with loop count 5 and a SysTime transition far in the future, ReadsFPGAState on, clock): nothing panics, the request
+register (`req_modulation_segment()`) says S1, the swap chain waits on S0, the byte is `0x88` — modulation segment S0 -/
+theorem requested_vs_current_witness :
+    afterTrace pendingC (fun s =>
+      reg s Cpu.ADDR_MOD_REQ_RD_SEGMENT = 1 ∧ Obs.currentModSeg s = 0 ∧ s.modSwap.state = .waitStart ∧
+      decodeState s.rxData = some (false, 0, some 0, none)) := by
+  decide +kernel
+
+/-- **firmware_version() inside a history** (`firmware_version_restores_trace`, PARTIAL).
+After ANY history `h` from power-on, the six frames of `firmware_version()` arrive with arbitrary clock updates
+`τ1 … τ5` between them (`SB.fvSeq`), followed by one more clock update at `tc`.  Compared with the device that sees
+only the clock updates `τ1 ++ … ++ τ5` and then `tc` (hypotheses `hy`, `hb`: those updates return):
+
+* the query runs through (no panic, every clock update returns) and the five bytes read back are the versions of the
+  power-on device — `0xA3, 0x00, VERSION_NUM_MAJOR, VERSION_NUM_MINOR, ENABLED_FEATURES_BITS` — whatever the history did;
+* afterwards the reads flag is what the history left (`readsOf false h`), the rx gate is open again, and the whole
+  device is the one without the query except for `ack`, `last_msg_id`, the parked copy of the reads flag and — only
+  while state reading is DISABLED — the low seven bits of the rx byte (the query leaves `0x80 & 0x7F = 0` there, the
+  device without the query keeps the bits of its previous byte; `Controller::fpga_state()` sees `None` in both);
+* with state reading enabled the rx byte is THE SAME byte; in every case it decodes the same.
+
+PARTIAL — what is missing from the full statement: the query is the LAST send of the history (it may be followed by
+any number of clock updates, here one).  For sends AFTER the query one needs that no handler reads `ack`,
+`last_msg_id`, `rx_data` (with the gate open and reading on) or `reads_fpga_state_store`: true by inspection (only
+`firm_info`, `read_fpga_state` and `ecat_recv`'s duplicate test touch them) but not proved as a simulation over all
+handlers.  The version of `firmware_version_restores` over single frames, with Clear or ReadsFPGAState in the middle of
+a query, is `firmware_version_interleaved_clear/_reads`; see `firmware_version_aborted_counterexample` for O6. -/
+theorem firmware_version_restores_trace_partial (numTr now : Nat) (hn : numTr ≤ 249) (p0 : State)
+    (hp0 : Fw.new numTr now = .ok p0) (t0 : Wire.Tx) (ht0 : Rt.TxOK t0) (h : List HEv) (s : State) (t : Wire.Tx)
+    (hr : RunE p0 t0 h s t) (f1 f2 f3 f4 f5 f6 : Array Nat) (i1 i2 i3 i4 i5 i6 : Nat)
+    (h1 : IsFirmInfoFrame f1 i1 Cpu.INFO_TYPE_CPU_VERSION_MAJOR) (h2 : IsFirmInfoFrame f2 i2 Cpu.INFO_TYPE_CPU_VERSION_MINOR)
+    (h3 : IsFirmInfoFrame f3 i3 Cpu.INFO_TYPE_FPGA_VERSION_MAJOR) (h4 : IsFirmInfoFrame f4 i4 Cpu.INFO_TYPE_FPGA_VERSION_MINOR)
+    (h5 : IsFirmInfoFrame f5 i5 Cpu.INFO_TYPE_FPGA_FUNCTIONS) (h6 : IsFirmInfoFrame f6 i6 Cpu.INFO_TYPE_CLEAR)
+    (d0 : s.lastMsgId ≠ i1) (d1 : i1 ≠ i2) (d2 : i2 ≠ i3) (d3 : i3 ≠ i4) (d4 : i4 ≠ i5) (d5 : i5 ≠ i6)
+    (τ1 τ2 τ3 τ4 τ5 : List Nat) (y : State) (hy : ticks s (τ1 ++ τ2 ++ τ3 ++ τ4 ++ τ5) = .ok y)
+    (tc : Nat) (b : State) (hb : updateWithSysTime y tc = .ok b) :
+    ∃ x a, fvSeq s f1 f2 f3 f4 f5 f6 τ1 τ2 τ3 τ4 τ5 =
+        .ok (x, [0xA3, 0x00, Fpga.VERSION_NUM_MAJOR % 256, Fpga.VERSION_NUM_MINOR % 256, Fpga.ENABLED_FEATURES_BITS % 256]) ∧
+      updateWithSysTime x tc = .ok a ∧
+      a.readsFpgaState = readsOf false h ∧ b.readsFpgaState = readsOf false h ∧ a.isRxDataUsed = false ∧
+      decodeState a.rxData = decodeState b.rxData ∧ (readsOf false h = true → a.rxData = b.rxData) ∧
+      a = { b with lastMsgId := i6, ack := i6, readsStore := readsOf false h, rxData := a.rxData } := by
+  have i := runE_inv hr false false (inv_new numTr now hn p0 hp0 t0 ht0)
+  obtain ⟨y4, hy, e5⟩ := ticks_split _ _ _ _ hy
+  obtain ⟨y3, hy, e4⟩ := ticks_split _ _ _ _ hy
+  obtain ⟨y2, hy, e3⟩ := ticks_split _ _ _ _ hy
+  obtain ⟨y1, e1, e2⟩ := ticks_split _ _ _ _ hy
+  have j5 := ticks_inv _ _ _ (ticks_inv _ _ _ (ticks_inv _ _ _ (ticks_inv _ _ _ (ticks_inv _ _ _ i e1) e2) e3) e4) e5
+  have hseq := fvSeq_eq s i f1 f2 f3 f4 f5 f6 i1 i2 i3 i4 i5 i6 h1 h2 h3 h4 h5 h6 d0 d1 d2 d3 d4 d5 τ1 τ2 τ3 τ4 τ5
+    y1 y2 y3 y4 y e1 e2 e3 e4 e5
+  obtain ⟨a, ha, hab, hrd, hused, hon, hoff⟩ := tick_closedQ y b i6 (Fpga.ENABLED_FEATURES_BITS % 256) tc
+    (by rw [j5.wf.ctl]; decide) j5.used hb
+  have hbr : b.readsFpgaState = readsOf false h := (inv_tick j5 hb).reads
+  refine ⟨_, a, hseq, ha, hrd.trans hbr, hbr, hused, ?_, ?_, ?_⟩
+  · cases hq : y.readsFpgaState
+    · obtain ⟨x1, x2⟩ := hoff hq
+      rw [x1, x2, disabled_reads_none_all, disabled_reads_none_all]
+    · rw [hon hq]
+  · intro hq
+    exact hon (j5.reads.trans hq)
+  · rw [← j5.reads]; exact hab
+
+/-- **O6, reachable only through a FAILED `firmware_version()`** (`firmware_version_aborted_counterexample`).
+`Controller::firmware_version(&mut self)` sends its six frames back to back under an exclusive borrow, so no other
+datagram of the same controller can fall between them; but each `fetch_firminfo` is a `?`: if the link fails after
+frame 1 the call returns `Err` and the closing frame is never sent.  The device is then left with the rx gate closed.
+Run by the kernel from power-on: ReadsFPGAState on, clock, FirmwareVersion(type 1) — query aborted here —, Clear,
+ReadsFPGAState on, clock.  State reading is enabled, yet the rx byte is still the CPU version `0xA3`, which
+`FPGAState::from_rx` accepts (bit 7 set) and decodes as thermal ALARM, modulation segment S1, STM segment S0 — on a
+device whose sensor is off and which plays S0/S0 gain.  Only a later complete `firmware_version()` re-opens the gate. -/
+theorem firmware_version_aborted_counterexample :
+    afterTrace abortedQ (fun s =>
+      s.readsFpgaState = true ∧ s.isRxDataUsed = true ∧ s.rxData = 0xA3 ∧
+      decodeState s.rxData = some (true, 1, none, some 0) ∧
+      Obs.isThermo s = false ∧ Obs.currentModSeg s = 0 ∧ Obs.currentStmSeg s = 0 ∧
+      Obs.stmCycle s (Obs.currentStmSeg s) = 1) := by
+  decide +kernel
+
 /-! ## non-vacuity -/
 
 /-- a concrete device state (power-on, 249 transducers, state reading enabled) meets the hypotheses of
@@ -227,4 +452,75 @@ example : ∃ f, IsFirmInfoFrame f 1 Cpu.INFO_TYPE_CPU_VERSION_MAJOR := by
   have : t.msgId = 1 := by rw [e2]; decide
   rw [this] at e5
   exact ⟨_, e5⟩
+/-- a concrete history meets the hypotheses of `state_byte_tracks_playing`, with state reading enabled and the sensor
+asserted at its end: sensor on, clock, ReadsFPGAState(true) through the packer, clock, sensor off, sensor on; then the
+final clock update at any time -/
+example (now tc : Nat) (p0 : State) (hp0 : Fw.new 249 now = .ok p0) (t0 : Wire.Tx) (ht0 : Rt.TxOK t0) :
+    ∃ s t s', RunE p0 t0 exHist s t ∧ updateWithSysTime s tc = .ok s' ∧ readsOf false exHist = true ∧
+      thermoOf false exHist = true := by
+  obtain ⟨s, t, r, c, i⟩ := exHist_runs now p0 hp0 t0 ht0
+  obtain ⟨s', u, _⟩ := clSw_tick s i c tc
+  exact ⟨s, t, s', r, u, rfl, rfl⟩
+
+/-- … and of `firmware_version_restores_trace_partial`: the same history, clock updates `[3000]`, `[]`, `[4000, 5000]`,
+`[]`, `[6000]` between the frames; all of them and the final one return -/
+example (now tc : Nat) (p0 : State) (hp0 : Fw.new 249 now = .ok p0) (t0 : Wire.Tx) (ht0 : Rt.TxOK t0) :
+    ∃ s t y b, RunE p0 t0 exHist s t ∧ ticks s ([3000] ++ [] ++ [4000, 5000] ++ [] ++ [6000]) = .ok y ∧
+      updateWithSysTime y tc = .ok b := by
+  obtain ⟨s, t, r, c, i⟩ := exHist_runs now p0 hp0 t0 ht0
+  obtain ⟨s1, u1, c1⟩ := clSw_tick s i c 3000
+  have i1 := inv_tick i u1
+  obtain ⟨s2, u2, c2⟩ := clSw_tick s1 i1 c1 4000
+  have i2 := inv_tick i1 u2
+  obtain ⟨s3, u3, c3⟩ := clSw_tick s2 i2 c2 5000
+  have i3 := inv_tick i2 u3
+  obtain ⟨s4, u4, c4⟩ := clSw_tick s3 i3 c3 6000
+  have i4 := inv_tick i3 u4
+  obtain ⟨b, u5, _⟩ := clSw_tick s4 i4 c4 tc
+  refine ⟨s, t, s4, b, r, ?_, u5⟩
+  show ticks s [3000, 4000, 5000, 6000] = .ok s4
+  simp only [ticks_cons, ticks_nil, u1, u2, u3, u4, P02.ok_bind]
+
+/-- the six frames of `firmware_version_restores_trace_partial` exist for every message id below 0x80 -/
+example : IsFirmInfoFrame (frame1 5 [3, 1]) 5 Cpu.INFO_TYPE_CPU_VERSION_MAJOR ∧
+    IsFirmInfoFrame (frame1 6 [3, 2]) 6 Cpu.INFO_TYPE_CPU_VERSION_MINOR ∧
+    IsFirmInfoFrame (frame1 7 [3, 3]) 7 Cpu.INFO_TYPE_FPGA_VERSION_MAJOR ∧
+    IsFirmInfoFrame (frame1 8 [3, 4]) 8 Cpu.INFO_TYPE_FPGA_VERSION_MINOR ∧
+    IsFirmInfoFrame (frame1 9 [3, 5]) 9 Cpu.INFO_TYPE_FPGA_FUNCTIONS ∧
+    IsFirmInfoFrame (frame1 10 [3, 6]) 10 Cpu.INFO_TYPE_CLEAR := by
+  refine ⟨⟨?_, ?_, ?_, ?_, ?_⟩, ⟨?_, ?_, ?_, ?_, ?_⟩, ⟨?_, ?_, ?_, ?_, ?_⟩, ⟨?_, ?_, ?_, ?_, ?_⟩, ⟨?_, ?_, ?_, ?_, ?_⟩,
+    ⟨?_, ?_, ?_, ?_, ?_⟩⟩ <;> decide
+
+/-- the datagram of `requested_vs_current` is legal on the power-on device and is accepted: Modulation of 4 samples to
+S1 (S0 is playing), loop count 5, SysTime transition at 10¹² ns.  (That the clock update after it returns is shown on
+the packed frames by `requested_vs_current_witness`.) -/
+example (p0 : State) (hp0 : Fw.new 249 0 = .ok p0) (t0 : Wire.Tx) (ht0 : Rt.TxOK t0) :
+    Legal p0 (.modulation 1 (some (Cpu.TRANSITION_MODE_SYS_TIME, 1000000000000)) 5 10 #[1, 2, 3, 4]) ∧
+    Obs.currentModSeg p0 ≠ 1 ∧
+    ∃ t1 s1, Rt.Sends (.modulation 1 (some (Cpu.TRANSITION_MODE_SYS_TIME, 1000000000000)) 5 10 #[1, 2, 3, 4]) p0 t0 t1 s1 := by
+  have e2 := new_eq 249 0 (by decide)
+  rw [hp0] at e2
+  simp only [Except.ok.injEq] at e2
+  have c := cleared_clearResult _ (wf_preClear 249 0 (by decide))
+  have hk := clearResult_kept (preClear 249 0)
+  rw [← e2] at c hk
+  have i0 := inv_new 249 0 (by decide) p0 hp0 t0 ht0
+  have hL : Legal p0 (.modulation 1 (some (Cpu.TRANSITION_MODE_SYS_TIME, 1000000000000)) 5 10 #[1, 2, 3, 4]) := by
+    refine ⟨⟨by decide, by decide, by decide, ?_, by decide, by decide, ?_⟩, ?_, ?_⟩
+    · intro i; unfold rd; by_cases h : i < 4
+      · have : i = 0 ∨ i = 1 ∨ i = 2 ∨ i = 3 := by omega
+        rcases this with rfl | rfl | rfl | rfl <;> decide
+      · simp [h]
+    · intro m v hmv
+      cases hmv
+      refine ⟨Or.inr (Or.inl rfl), by decide, ?_⟩
+      rw [hk.2.2.2.2.2.2.2.2.2.2.2.2]
+      decide
+    · rw [c.modSegment]; decide
+    · unfold validateSilencerSettings
+      rw [c.strict, c.minDivI, c.minDivP, c.stmDiv, c.stmSegment]; decide
+  refine ⟨hL, ?_, ?_⟩
+  · unfold Obs.currentModSeg; rw [c.modSwap.cur]; decide
+  · obtain ⟨t1, s1, hS⟩ := legal_sends p0 t0 i0.wf i0.tx i0.fresh _ hL
+    exact ⟨t1, s1, hS⟩
 end Autd3.C17
